@@ -508,6 +508,13 @@ func (e *Engine) verifapi(fr *frame, fn *ssa.Function, a []Value) Value {
 		}
 		e.witnesses[n] = a[1]
 		return nil
+	case "WitnessList":
+		n := a[0].(string)
+		if _, ok := e.witnesses[n]; !ok {
+			e.witnessOrder = append(e.witnessOrder, n)
+		}
+		e.witnesses[n] = a[1]
+		return nil
 	case "WitnessInt":
 		n := a[0].(string)
 		if _, ok := e.witnesses[n]; !ok {
@@ -540,7 +547,26 @@ func (e *Engine) concretizeTerm(t *Term) Value {
 	}
 	set := map[uint64]bool{}
 	if !leafConsts(t, set) {
-		panic(pathEnd{kind: "unsupported", msg: "concretize of non-table term"})
+		// small-domain term (an 8-bit variable, possibly extended): try values in ascending
+		// order; decide() prunes the infeasible ones, so the order is deterministic across
+		// re-executions of the path prefix.
+		inner := t
+		for inner.op == "zext" || inner.op == "sext" {
+			inner = inner.args[0]
+		}
+		if inner.w == 0 || inner.w > 8 {
+			panic(pathEnd{kind: "unsupported", msg: "concretize of wide non-table term"})
+		}
+		for v := uint64(0); v <= mask(inner.w); v++ {
+			if e.decide(e.ts.Cmp("=", inner, e.ts.BV(v, inner.w))) {
+				r := e.simplify(t)
+				if r.IsConst() {
+					return sext(r.val, r.w)
+				}
+				return int64(v)
+			}
+		}
+		panic(pathEnd{kind: "infeasible", msg: "concretize: no value"})
 	}
 	var vals []uint64
 	for v := range set {
